@@ -70,6 +70,9 @@ def one(sid, tier, only_checks=None):
             res['checks'][c] = {'exit': rc, 'violations': len(viol), 'first': first, 'wall_s': round(time.time() - t0, 1),
                                 'tail': out.strip().splitlines()[-1][:300] if out.strip() else ''}
         res['caught'] = any(v['exit'] == 1 and v['violations'] > 0 for v in res['checks'].values())
+        # a change whose own demonstration passes with it applied no longer breaks the property on the current tree (a later repair of
+        # the tree removed what it relied on): nothing to catch
+        res['neutralised'] = rc1 == 0
         return res
     finally:
         sh(['git', '-C', '/repo', 'worktree', 'remove', '--force', wt])
@@ -108,7 +111,7 @@ def main():
             continue
         ch = '; '.join(f"{c} [{r.get('tier', 'quick')}]: exit {v['exit']}, {v['violations']} VIOLATION lines ({v['wall_s']} s)" for c, v in r['checks'].items())
         lines.append(f"| {sid} | {r['property']} | {r['summary'][:160].replace('|', '/')} | {r['needs'][:160].replace('|', '/')} | {r['tests']} | {r['demo_clean']} / {r['demo_seeded']} | "
-                     f"{'**caught**' if r['caught'] else '**MISSED**'}: {ch} |")
+                     f"{'**neutralised** (its demonstration passes on the current tree)' if r.get('neutralised') else '**caught**' if r['caught'] else '**MISSED**'}: {ch} |")
     if not os.environ.get('SEEDED_RESULTS'):
         open(os.path.join(SEEDED, 'RESULTS.md'), 'w').write('\n'.join(lines) + '\n')
     print('\n'.join(lines[-len(results):]))
